@@ -10,6 +10,18 @@ def crc(b):
     return zlib.crc32(b) & 0x7fffffff
 
 
+def fresh_write(path, text):
+    """(re)write a file in place and make it NEWER than an index left beside it by an earlier version (pyfaidx rebuilds its
+    .fai by modification time; a genome file that was updated is newer than its old index)"""
+    import os, time
+    with open(path, "w") as f:
+        f.write(text)
+    fai = path + ".fai"
+    if os.path.exists(fai):
+        t = max(time.time_ns(), os.stat(fai).st_mtime_ns + 5_000_000)
+        os.utime(path, ns=(t, t))
+
+
 def tdig(t):
     """digest of a tensor's bytes + dtype + shape"""
     import numpy
